@@ -44,7 +44,9 @@ Record sdef := {
   s_switch : list (bytes * bytes);     (* case "key": -> receiver field written *)
   s_defaults : list (bytes * value);   (* fields set before the key loop *)
   s_post_assigns : list bytes;         (* fields written after the key loop *)
-  s_rejects_unknown : bool             (* unknown keys are an error under MappingJSONStrict *)
+  s_rejects_unknown : bool;            (* unknown keys are an error under MappingJSONStrict *)
+  s_required : list bytes              (* validity: fields every value of the type holds non-empty
+                                          (not read off the source; stated where the tables are built) *)
 }.
 
 Definition env := list (bytes * sdef).
@@ -323,19 +325,20 @@ Section Codec.
     end.
 
   (* ---------------------------------------------------------------- the values the model covers *)
-  Fixpoint wf_fields (wv : kind -> value -> bool) (tbl : list tentry) (fs : record) : bool :=
+  Fixpoint wf_fields (wv : kind -> value -> bool) (req : list bytes) (tbl : list tentry) (fs : record) : bool :=
     match tbl, fs with
     | [], [] => true
     | e :: tbl', (f, v) :: fs' =>
         beqb f (te_field e)
+        && (if memb (te_field e) req then negb (is_empty v) else true)
         && (if te_omit e && is_empty v then is_zero_of (te_kind e) v else wv (te_kind e) v)
-        && wf_fields wv tbl' fs'
+        && wf_fields wv req tbl' fs'
     | _, _ => false
     end.
 
   (* value v is a Go value of kind k: records carry exactly the table's fields in order, ints fit
-     int64, strings and map keys are valid UTF-8, map keys strictly ascending, and no empty
-     map / slice sits where Go would tell nil from empty. *)
+     int64, strings and map keys are valid UTF-8, map keys strictly ascending, no empty
+     map / slice sits where Go would tell nil from empty, required fields are non-empty. *)
   Fixpoint wf_value (fuel : nat) (k : kind) (v : value) {struct fuel} : bool :=
     match fuel with
     | O => false
@@ -349,7 +352,7 @@ Section Codec.
         | KPtrS n, VPtr fs =>
             match lookup n E with
             | None => false
-            | Some sd => wf_fields (wf_value f) (s_table sd) fs
+            | Some sd => wf_fields (wf_value f) (s_required sd) (s_table sd) fs
             end
         | KList k', VList (x :: l) => forallb (wf_value f k') (x :: l)
         | KMap k', VMap (x :: m) =>
@@ -367,7 +370,8 @@ Section Codec.
     list_eqb beqb (map fst init) (map te_field (s_table sd))
     && forallb (fun e =>
          match lookup (te_field e) (apply_defaults (s_defaults sd) init) with
-         | Some x => (if te_omit e then is_zero_of (te_kind e) x else true) && exok (te_kind e) x
+         | Some x => (if te_omit e && negb (memb (te_field e) (s_required sd))
+                      then is_zero_of (te_kind e) x else true) && exok (te_kind e) x
          | None => false
          end) (s_table sd).
 
@@ -416,8 +420,9 @@ Section Codec.
     && forallb (fun kf => memb (snd kf) (map te_field tbl)) (s_switch sd)
     (* every kind is modelled *)
     && forallb (fun e => kind_supported (te_kind e)) tbl
-    (* decode-side defaults: a field `omitempty` can leave out holds the zero value when its key is
-       absent, and no default leaks into a decoded value (from a fresh, zeroed receiver) *)
+    (* decode-side defaults: a field `omitempty` can leave out (one not required to be non-empty)
+       holds the zero value when its key is absent, and no default leaks into a decoded value
+       (from a fresh, zeroed receiver) *)
     && init_okb (ex_okb fuel) sd (zero_record tbl)
     (* nothing is overwritten after the key loop *)
     && is_nil (s_post_assigns sd)
@@ -436,7 +441,7 @@ Section Codec.
     ustruct (dval fuel) sd (zero_record (s_table sd)) j.
 
   Definition wf_record (fuel : nat) (sd : sdef) (r : record) : bool :=
-    wf_fields (wf_value fuel) (s_table sd) r.
+    wf_fields (wf_value fuel) (s_required sd) (s_table sd) r.
 End Codec.
 
 (* ---------------------------------------------------------------- equality tests (for cases) *)
